@@ -1,10 +1,13 @@
 """C19 - deepcopy and pickle reproduce any node tree."""
 import ast
+import re
 
 from ..mutate import Mutant, in_func, delete_stmt, in_module
 from ..report import AnalysisError
 from ..srcmodel import unparse, norm, walk_no_nested, calls_in
-from .common import is_method_call, name_defs
+from .common import is_method_call, name_defs, node_obj, fde_guard
+from ..fde import FDE
+from . import tr
 from . import containers as ct
 from . import mergerules as mr
 
@@ -21,101 +24,165 @@ COPY_HOOKS = ('__reduce__', '__reduce_ex__', '__getstate__', '__setstate__', '__
 CHECKED_HOOKS = {('ComposedNode', '__getstate__'), ('ComposedNode', '__setstate__'), ('ComposedNode', '__reduce__'), ('ConfigScalar', '__reduce__'), ('ConfigList', '__setstate__')}
 
 
+COPY_TEXTS = ('self.__dict__.copy()', 'dict(self.__dict__)', 'copy.copy(self.__dict__)', '{**self.__dict__}')
+
+
 def _is_dict_copy(e):
     s = norm(e)
-    return s in ('self.__dict__.copy()', 'dict(self.__dict__)', 'copy.copy(self.__dict__)', '{**self.__dict__}')
+    return s in COPY_TEXTS
 
 
 def r1(repo, run):
+    """evaluated on the traces of __getstate__ (locals substituted): the returned object is a fresh copy of
+    __dict__, the child map has been removed from *it*, the live __dict__ is never mutated"""
     fi = repo.func('ComposedNode.__getstate__')
-    rets = [s for s in walk_no_nested(fi.node) if isinstance(s, ast.Return)]
-    if len(rets) != 1 or not isinstance(rets[0].value, ast.Name):
-        raise AnalysisError('__getstate__: single `return <name>` not recognised')
-    var = rets[0].value.id
-    defs = name_defs(fi, var)
-    removed = False
-    for s in walk_no_nested(fi.node):
-        if isinstance(s, ast.Delete) and any(isinstance(t, ast.Subscript) and norm(t.value) == var and norm(t.slice) == "'_children'" for t in s.targets):
-            removed = True
-        if isinstance(s, ast.Delete) and any(isinstance(t, ast.Subscript) and norm(t.value) == 'self.__dict__' for t in s.targets):
-            run.violation('C19.R1', fi, norm(s), 'deletes from the live __dict__ of the node being copied', node=s)
-    for c in calls_in(fi.node):
-        if is_method_call(c, recv=var, member='pop') and c.args and norm(c.args[0]) == "'_children'":
-            removed = True
-        if is_method_call(c, recv='self.__dict__', member=('pop', 'clear', 'popitem')):
-            run.violation('C19.R1', fi, unparse(c), 'mutates the live __dict__ of the node being copied', node=c)
-    if len(defs) != 1 or not _is_dict_copy(defs[0][1]):
-        run.violation('C19.R1', fi, 'state = ' + (norm(defs[0][1]) if defs else '?'), 'the state dict is not a copy of self.__dict__: removing the child map from it would strip the original node (or share its attribute dict with the copy)')
-    elif not removed:
-        run.violation('C19.R1', fi, norm(fi.node)[:160], 'the child map is left in the pickled/copied state (children are re-attached separately through the item iterators)')
-    else:
-        run.ok('C19.R1', fi, "state = self.__dict__.copy(); del state['_children']; return state")
+    paths = tr.paths_of(repo, fi)
+    rets = tr.top_returns(paths)
+    if not rets:
+        raise AnalysisError('__getstate__: no returning path')
+    bad = False
+    for p, fin in rets:
+        ret = fin.value.text
+        for e in p.events:
+            if e.kind == 'store' and e.target.startswith('del self.__dict__['):
+                run.violation('C19.R1', tr.where(fi, e), e.target, 'deletes from the live __dict__ of the node being copied')
+                bad = True
+            if tr.is_call(e, attr=('pop', 'clear', 'popitem', 'update', '__delitem__', 'setdefault'), recv='self.__dict__'):
+                run.violation('C19.R1', tr.where(fi, e), e.callee, 'mutates the live __dict__ of the node being copied')
+                bad = True
+        if ret == 'self.__dict__':
+            run.violation('C19.R1', tr.where(fi, fin), 'return self.__dict__', 'the state dict is not a copy of self.__dict__: removing the child map from it would strip the original node (or share its attribute dict with the copy)')
+            bad = True
+            continue
+        filtered = re.match(r"^\{(\w+): (\w+) for \1, \2 in self\.__dict__\.items\(\) if \1 != '_children'\}$", ret)
+        if ret not in COPY_TEXTS and not filtered:
+            raise AnalysisError('__getstate__: returned value %s not recognised as a copy of __dict__' % ret[:80])
+        removed = bool(filtered)
+        for e in p.events:
+            if e.kind == 'store' and e.target == "del %s['_children']" % ret:
+                removed = True
+            if tr.is_call(e, attr='pop', recv=ret) and e.args and e.args[0].const == '_children':
+                removed = True
+        if not removed:
+            run.violation('C19.R1', tr.where(fi, fin), 'return ' + ret, 'the child map is left in the pickled/copied state (children are re-attached separately through the item iterators)')
+            bad = True
+    if not bad:
+        run.ok('C19.R1', fi, 'returns a copy of self.__dict__ without the child map; live __dict__ untouched (%d paths)' % len(rets))
     ss = repo.func('ComposedNode.__setstate__')
-    if norm(ss.node.body[-1]) != 'self.__dict__.update(state)':
+    sp = tr.paths_of(repo, ss)
+    upd = [e for p in sp for e in p.events if tr.is_call(e, attr='update', recv='self.__dict__') and e.args and e.args[0].text == ss.params()[1]]
+    clobber = [e for p in sp for e in p.events if (e.kind == 'store' and e.target in ('self.__dict__', 'self._children')) or tr.is_call(e, attr='clear', recv=('self.__dict__', 'self._children'))]
+    if clobber:
+        run.violation('C19.R1', tr.where(ss, clobber[0]), clobber[0].target or clobber[0].callee, '__setstate__ replaces the attribute dict / child map that the item iterators populate')
+    elif len(upd) != len(sp):
         raise AnalysisError('__setstate__ shape not recognised')
-    run.ok('C19.R1', ss, '__setstate__: self.__dict__.update(state) (child map populated by the item iterators survives)')
+    else:
+        run.ok('C19.R1', ss, '__setstate__: self.__dict__.update(state) (child map populated by the item iterators survives)')
 
 
 def r2(repo, run):
     fi = repo.func('ComposedNode.__reduce__')
-    rets = [s for s in walk_no_nested(fi.node) if isinstance(s, ast.Return)]
-    if len(rets) != 1 or not isinstance(rets[0].value, ast.Tuple) or len(rets[0].value.elts) != 5:
-        run.violation('C19.R2', fi, norm(rets[0]) if rets else '__reduce__', '__reduce__ does not return the 5-tuple (callable, args, state, list items, dict items)')
-        return
-    f, args, state, lit, dit = rets[0].value.elts
-    probs = []
-    if norm(f) != 'ComposedNode._recreate':
-        probs.append('reconstructor is %s' % norm(f))
-    if norm(args) not in ('(type(self),)', '(self.__class__,)'):
-        probs.append('reconstructor arguments %s do not carry the exact class' % norm(args))
-    sd = name_defs(fi, state.id) if isinstance(state, ast.Name) else []
-    if not sd or norm(sd[0][1]) != 'self.__getstate__()':
-        probs.append('state is not self.__getstate__()')
-    for var, base, want in ((lit, 'list', 'iter(self)'), (dit, 'dict', 'iter(self.items())')):
-        if not isinstance(var, ast.Name):
-            probs.append('%s iterator slot is not a variable' % base)
+    paths = tr.paths_of(repo, fi, no_inline={'__getstate__', '_recreate'})
+    rets = tr.top_returns(paths)
+    if not rets:
+        raise AnalysisError('__reduce__: no returning path')
+    n = 0
+    probs = set()
+    for p, fin in rets:
+        el = fin.value.elems
+        if el is None or len(el) != 5:
+            run.violation('C19.R2', tr.where(fi, fin), fin.value.text[:120], '__reduce__ does not return the 5-tuple (callable, args, state, list items, dict items)')
+            return
+        f, args, state, lit, dit = el
+        if f.text not in ('ComposedNode._recreate', 'self._recreate', 'type(self)._recreate', 'self.__class__._recreate'):
+            probs.add('reconstructor is %s' % f.text)
+        if args.text not in ('(type(self),)', '(self.__class__,)'):
+            probs.add('reconstructor arguments %s do not carry the exact class' % args.text)
+        if state.text != 'self.__getstate__()':
+            probs.add('state is %s, not self.__getstate__()' % state.text[:60])
+        is_list = tr.fact(p, 'isinstance(self, list)', True)
+        is_dict = tr.fact(p, 'isinstance(self, dict)', True)
+        if is_list and is_dict:
             continue
-        ok = False
-        for s in walk_no_nested(fi.node):
-            if isinstance(s, ast.If):
-                for arm in [s] + [x for x in s.orelse if isinstance(x, ast.If)]:
-                    if norm(arm.test) == 'isinstance(self, %s)' % base:
-                        for a in arm.body:
-                            if isinstance(a, ast.Assign) and norm(a.targets[0]) == var.id and norm(a.value) == want:
-                                ok = True
-        if not ok:
-            probs.append('%s children are not supplied as %s under isinstance(self, %s) in slot %d' % (base, want, base, 4 if base == 'list' else 5))
+        if is_list:
+            n += 1
+            if lit.text != 'iter(self)' or dit.const is not None:
+                probs.add('list children are not supplied as iter(self) in slot 4 alone (slots: %s, %s)' % (lit.text, dit.text))
+        elif is_dict:
+            n += 1
+            if dit.text != 'iter(self.items())' or lit.const is not None:
+                probs.add('dict children are not supplied as iter(self.items()) in slot 5 alone (slots: %s, %s)' % (lit.text, dit.text))
+        elif tr.fact(p, 'isinstance(self, list)', False) and tr.fact(p, 'isinstance(self, dict)', False):
+            pass
+        else:
+            raise AnalysisError('__reduce__: a path does not test the built-in base (%s)' % tr.describe(p))
+    if n < 2 and not probs:
+        raise AnalysisError('__reduce__: list / dict paths not found')
     if probs:
-        run.violation('C19.R2', fi, norm(rets[0]), '; '.join(probs), node=rets[0])
+        run.violation('C19.R2', fi, 'return of __reduce__', '; '.join(sorted(probs)))
     else:
-        run.ok('C19.R2', fi, norm(rets[0]), 'list -> 4th slot iter(self); dict -> 5th slot iter(self.items())')
+        run.ok('C19.R2', fi, '(ComposedNode._recreate, (type(self),), self.__getstate__(), lit, dit)', 'list -> 4th slot iter(self); dict -> 5th slot iter(self.items()) (%d paths)' % len(rets))
     rc = repo.func('ComposedNode._recreate')
-    src = [norm(s) for s in rc.node.body]
-    if src != ['new = cls.__new__(cls)', 'new._children = {}', 'return new']:
-        run.violation('C19.R2', rc, ' ; '.join(src), 'the reconstructor must create a bare instance with an empty child map (attributes arrive later through __setstate__; running constructors here re-derives flags from defaults)')
+    cls = rc.params()[0]
+    bad = False
+    for p, fin in tr.top_returns(tr.paths_of(repo, rc)):
+        new = fin.value.text
+        if new not in ('%s.__new__(%s)' % (cls, cls), 'object.__new__(%s)' % cls):
+            bad = 'returns %s' % new[:80]
+        calls = [e for e in p.events if e.kind == 'call' and e.callee not in ('%s.__new__' % cls, 'object.__new__')]
+        if calls:
+            bad = 'calls %s' % calls[0].callee
+        stores = [e for e in p.events if e.kind == 'store']
+        if not any(e.target == new + '._children' and e.value is not None and e.value.text in ('{}', 'dict()') for e in stores):
+            bad = bad or 'no empty child map'
+        extra = [e for e in stores if e.target != new + '._children']
+        if extra:
+            bad = bad or 'also sets %s' % extra[0].target
+    if bad:
+        run.violation('C19.R2', rc, '_recreate: ' + bad, 'the reconstructor must create a bare instance with an empty child map (attributes arrive later through __setstate__; running constructors here re-derives flags from defaults)')
     else:
         run.ok('C19.R2', rc, '_recreate: cls.__new__(cls) with an empty child map')
+
+
+def _instance_attrs(repo):
+    out = set()
+    for q in ('ConfigNode.__init__', 'ComposedNode.__init__'):
+        fi = repo.func(q)
+        for n in ast.walk(fi.node):
+            if isinstance(n, ast.Attribute) and isinstance(n.ctx, ast.Store) and isinstance(n.value, ast.Name) and n.value.id == 'self':
+                out.add(n.attr)
+    if '_delete' not in out or len(out) < 6:
+        raise AnalysisError('instance attributes of ConfigNode not found')
+    return out - {'_children'}
 
 
 def r3(repo, run):
     ct.pairing(repo, run, 'C19.R3', classes=('ConfigList',), ops=['append', 'extend'])
     ct.pairing(repo, run, 'C19.R3', classes=('ConfigDict',), ops=['__setitem__'])
-    for q in ('ComposedNode._get_child_kwargs', 'ComposedNode._propagate_implicit_values'):
+    # the object the item iterators fill is the bare instance made by _recreate: evaluate the helpers the mutators
+    # reach on an object that has a child map and *no* instance attributes
+    attrs = _instance_attrs(repo)
+    for q, with_child in (('ComposedNode._get_child_kwargs', True), ('ComposedNode._propagate_implicit_values', False)):
         fi = repo.func(q)
-        body = [s for s in fi.node.body if not (isinstance(s, ast.Expr) and isinstance(s.value, ast.Constant))]
-        guard = None
-        for s in body[:2]:
-            if isinstance(s, ast.If) and norm(s.test) == "not hasattr(self, '_delete')" and isinstance(s.body[-1], ast.Return):
-                guard = s
-        if guard is None:
-            run.violation('C19.R3', fi, 'pre-__setstate__ guard', 'children are re-attached before attributes are restored when unpickling; without the `if not hasattr(self, \'_delete\'): return` guard this helper fails or derives flags from an attribute-less parent')
+        for child in ((None, 'child') if with_child else (None,)):
+            bare = node_obj('bare', 'ComposedNode')
+            for a in attrs:
+                bare.f.pop(a, None)
+            bare.missing = set(attrs)
+            bare.f['_children'] = {}
+            args = [bare]
+            if child:
+                args.append(node_obj('child', 'ConfigNode'))
+            f = FDE(repo)
+            r = fde_guard(lambda: f.call(fi, *args))
+            if r.raised is not None:
+                run.violation('C19.R3', fi, '%s on the pre-__setstate__ object raises %s' % (fi.name, r.raised), 'children are re-attached before attributes are restored when unpickling; without the `hasattr(self, \'_delete\')` guard this helper fails on (or derives flags from) an attribute-less parent')
+                break
+            if with_child and r.ret != {}:
+                run.violation('C19.R3', fi, '%s on the pre-__setstate__ object returns %r' % (fi.name, r.ret), 'flags are derived from an attribute-less parent')
+                break
         else:
-            # nothing that reads flags may precede the guard
-            before = body[:body.index(guard)]
-            if any('self._' in norm(b) for b in before):
-                run.violation('C19.R3', fi, norm(before[0]), 'flags are read before the pre-__setstate__ guard', node=before[0])
-            else:
-                run.ok('C19.R3', (fi.file, guard.lineno, fi.qualname), "if not hasattr(self, '_delete'): return", 'tolerates the bare instance made by _recreate')
+            run.ok('C19.R3', fi, '%s evaluated on a bare instance (no instance attributes)' % fi.name, 'tolerates the bare instance made by _recreate')
     mr.child_kwargs_keys(repo, run, 'C19.R3')
 
 
